@@ -873,3 +873,8 @@ func (c *VCheck) SnapshotAt(ids []string, scopes [][]string, at int64, current b
 func (c *VCheck) Fail(clause, what string) { c.fail(clause, what, nil) }
 
 func VScopes(dss []string) [][]string { return vScopes(dss) }
+
+// KFWildcardIncoming exposes the input-class test of the recorded C03 known finding to harnesses of other packages.
+func (h *VHist) KFWildcardIncoming(start string, scope []string, got map[string]int, want map[string]bool) bool {
+	return h.onlyMultiPredSources(relQuery{Start: start, Pred: "*", Inverse: true, Scope: scope}, got, want)
+}
